@@ -60,6 +60,11 @@ CHECKS = {
    technique="explicit-state BFS over request/clock histories through a real engine (Stream from generated quota+flow YAML) against a per-(quota, group) window reference; schedule exploration of concurrent requests",
    text="8 quota configurations (11 thorough): flat, grouped by header, parent/child hierarchy with own limit or allocation percentage, grouping on parent and/or child. Every history up to depth 5-6 of requests (child / parent-only URL x group header a|b|absent) and clock steps of 1 s and W runs through a real streams.Stream (quota loader, system flows, Limiter, GenerateResponse); each verdict must equal the reference (refused iff the own quota or an ancestor is full for its current window) and admissions per window never exceed max. Schedules (<=2 preemptions, points at the quota / shared-state locks) cover two concurrent requests on one key and a child + parent request sharing the parent.",
    note="whole-second arrival instants; scheduling decisions only at sync operations of streams/resources/quota and streams/lunar-context; one known finding (double charge when child and parent limiters both see a request)"),
+
+ "C02": dict(level="model_checking", engine="seqx-bfs+schedx", design="§3 C02",
+   technique="explicit-state BFS over request / early-response / response / proxy-error / clock histories through a real engine with a concurrent quota (its own GC goroutine running), against an occupancy reference; schedule exploration of concurrent arrivals and response-vs-error",
+   text="Three configurations (max 1, max 2, max 1 followed by a second rate quota on the same path); every history up to depth 6 (7 thorough) over three transaction slots of request, request answered early by the gateway, response, proxy error report and clock steps of 1 s / 3 s runs through a real streams.Stream in virtual time. A request may be admitted only while fewer than max admitted, un-ended, un-expired transactions exist; it may be refused only while max slots can still be held (no leaked slot: ended or expired+GC'd transactions free theirs). Schedules (<=2 preemptions) cover two arrivals competing for one slot and a holder's response racing its error report followed by probes.",
+   note="slots of abandoned transactions must be free one GC interval after their expiry; scheduling decisions at sync operations of streams/resources and streams/lunar-context; virtual time"),
 }
 NA_REASON = "check not built yet in this round (work in progress; planned per DESIGN.md §3)"
 def main():
